@@ -104,7 +104,13 @@ def go_test_build(scratch, mod_rel, pkg_rel_in_mod, overlay, out_name, race=Fals
     """Compile the (overlaid) test binary of one package. Returns the binary path."""
     moddir = os.path.join(REPO, mod_rel)
     binp = scratch.path(out_name)
-    cmd = ["go", "test", "-c", "-vet=off", "-tags", tags, "-overlay", overlay, "-o", binp]
+    # a private copy of go.mod/go.sum: -mod=mod may rewrite them (the harness imports packages the module
+    # only needs indirectly) and a check must never modify /repo
+    md = scratch.sub("mod-" + out_name)
+    shutil.copy(os.path.join(moddir, "go.mod"), os.path.join(md, "go.mod"))
+    if os.path.exists(os.path.join(moddir, "go.sum")):
+        shutil.copy(os.path.join(moddir, "go.sum"), os.path.join(md, "go.sum"))
+    cmd = ["go", "test", "-c", "-vet=off", "-tags", tags, "-overlay", overlay, "-modfile", os.path.join(md, "go.mod"), "-o", binp]
     if race:
         cmd.append("-race")
     cmd.append(pkg_rel_in_mod)
